@@ -120,8 +120,8 @@ def main():
             caught = False
             plan = [('quick', s) for s in seeds] + ([('thorough', seeds[0])] if thorough else [])
             for tier, s in plan:
-                if caught and tier == 'thorough':
-                    break
+                if caught:
+                    break  # first catch is enough (saves machine time)
                 t0 = time.time()
                 env = dict(os.environ); env['TV_NO_EVIDENCE_CLOBBER'] = '1'
                 if not stages: env['TV_SKIP_STAGES'] = '1'
